@@ -8,6 +8,11 @@
 #include "util/pcqueue.hh"
 #include "util/pool.hh"
 #include "util/string_piece.hh"
+#ifdef PREPROCESS_VERIF
+#include "util/verif_hooks.hh"
+#else
+#define PV_TRACE(kind, a, b)
+#endif
 
 #include <string>
 #include <thread>
@@ -51,6 +56,7 @@ void Input(util::UnboundedSingleQueue<QueueEntry> &queue, util::scoped_fd &proce
     util::FileStream process(process_input.release());
     std::pair<uint64_t, util::StringPiece> entry;
     std::size_t flush_count = flush_rate;
+    std::size_t pv_index = 0;
     // Parse column numbers, if given using --key option, into an integer vector (comma separated integers)
     std::vector<FieldRange> indices;
     ParseFields(options.key.c_str(), indices);
@@ -64,20 +70,26 @@ void Input(util::UnboundedSingleQueue<QueueEntry> &queue, util::scoped_fd &proce
       // captive process: writing a long line blocks until the process's answer
       // is being read, and the output thread only reads once it has this entry.
       q_entry.value = &res.first->second;
+      PV_TRACE("F.enq", pv_index, res.second ? 1 : 0);
       queue.Produce(q_entry);
       if (res.second) {
         // New entry.  Send to captive process.
         process << l << '\n';
+        PV_TRACE("F.write", pv_index, 0);
         // Guarantee we flush to process every so often.
         if (!--flush_count) {
           process.flush();
           flush_count = flush_rate;
+          PV_TRACE("F.flush", pv_index, 0);
         }
       }
+      ++pv_index;
     }
   }
+  PV_TRACE("F.close", 0, 0);
   // Poison.
   q_entry.value = NULL;
+  PV_TRACE("F.poison", 0, 0);
   queue.Produce(q_entry);
 }
 
@@ -94,16 +106,20 @@ void Output(util::UnboundedSingleQueue<QueueEntry> &queue, util::scoped_fd &proc
   QueueEntry q;
   while (queue.Consume(q).value) {
     util::StringPiece &value = *q.value;
+    PV_TRACE("C.consume", value.data() ? 0 : 1, 0);
     if (!value.data()) {
       // New entry, not cached.
       util::StringPiece got = in.ReadLine();
+      PV_TRACE("C.read", 0, 0);
       // Allocate memory to store a copy of the line.
       char *copy_to = (char*)string_pool.Allocate(got.size());
       memcpy(copy_to, got.data(), got.size());
       value = util::StringPiece(copy_to, got.size());
     }
     out << value << '\n';
+    PV_TRACE("C.out", 0, 0);
   }
+  PV_TRACE("C.done", 0, 0);
 }
 
 int main(int argc, char *argv[]) {
